@@ -6,6 +6,7 @@ package main
 
 import (
 	"fmt"
+	"regexp"
 	"sort"
 	"strings"
 
@@ -439,6 +440,8 @@ func runC08(w *World, c *Check) {
 	c.Rule("C08.defaults", "default s2k parameters, protocol-key sizes and seed lengths per etype; RFC 8009 salt prefixes are the etype names", 20)
 	c.Rule("C08.generated", "generated keys are sized by GetKeyByteSize() of the etype they are stamped with, filled by crypto/rand, and every EncryptData accepts exactly that size", 10)
 	c.Rule("C08.precedence", "PA-ETYPE-INFO2 > PA-ETYPE-INFO > PA-PW-SALT regardless of order (RFC 4120 §5.2.7.5)", 2)
+	c.Rule("C08.kdf-length", "RFC 8009 §5: for aes256-sha384 the derived key is 256 bits exactly for Ke (the label's LAST octet is 0xAA) and for string-to-key (the label is \"kerberos\"), else the seed length: every test of the label in DeriveKey (and helpers extracted from it) is one of those two, in a known spelling", 3)
+	ruleKDFLength(w, c, "C08.kdf-length")
 	c.Rule("C08.weakkey", "DES3 random-to-key corrects weak keys per 8-byte DES key: fixWeakKey is applied to each stretch56Bits block (the weak-key table holds 8-byte keys), and flips byte 7 with 0xF0 when weak() says so", 4)
 	c.Rule("C08.salt", "the salt defaults to cname.GetSalt(realm) only when none was supplied; only 4-byte s2kparams are decoded", 3)
 	c.Rule("C08.stateless", "a crypto function touches package-level state only as a memo table keyed by all of its parameters themselves (on this tree: no package-level state at all): results do not depend on earlier calls", 6)
@@ -616,6 +619,34 @@ func runC08(w *World, c *Check) {
 			def := fa.MatchGuard(EqPass(`""`, `\$L\d+|φ⟲?\(.*\)`))
 			c.Decide(len(def) > 0, "C08.salt", fk, "default-only-when-empty", where, "the default salt is used only when no salt was supplied", "no emptiness test of the salt")
 			c.Decide(strings.Contains(args[3], "GetDefaultStringToKeyParams") && strings.Contains(args[3], "S2KParams"), "C08.salt", fk, "s2kparams", where, "parameters are the etype default or the KDC-supplied ones", "params operand is "+trunc(args[3], 200))
+			// what the hints set is what is used: no alternative of the parameters operand is
+			// computed after the hint loop (a late "default for the etype now in use" discards
+			// the KDC's iteration count)
+			if ops := calls[0].Common().Args; len(ops) >= 3 {
+				pv := ops[len(ops)-1]
+				leaves := fa.LeafValues(pv)
+				var hdr *ssa.BasicBlock
+				for _, lv := range leaves {
+					if in, isIn := lv.v.(ssa.Instruction); isIn && lv.fa == fa && in.Block() != nil {
+						if h := loopHeaderOf(in.Block()); h != nil {
+							hdr = h
+						}
+					}
+				}
+				late := ""
+				if hdr != nil {
+					for _, lv := range leaves {
+						in, isIn := lv.v.(ssa.Instruction)
+						if !isIn || lv.fa != fa || in.Block() == nil {
+							continue
+						}
+						if b := in.Block(); loopHeaderOf(b) != hdr && !b.Dominates(hdr) {
+							late = lv.fa.R.R(lv.v) + " at " + w.Pos(InstrPos(in))
+						}
+					}
+				}
+				c.Decide(late == "", "C08.salt", fk, "s2kparams-not-reset", where, "the parameters used are the default taken before the hints or what a hint supplied: nothing replaces them after the hints were processed", "the parameters may be "+trunc(late, 160)+", computed after the hint loop: parameters a hint supplied are discarded")
+			}
 			lenTest := false
 			for _, sub := range fa.withNewHelpers() {
 				if len(sub.MatchGuard(EqPass("4", `len\(.*\.S2KParams\)`))) > 0 {
@@ -705,4 +736,56 @@ func ruleWeakKey(w *World, c *Check, rule string) {
 		}
 		c.Decide(okSt, rule, FuncKey(ff), "flip", w.Pos(ff.Pos()), "a weak key gets byte 7 xored with 0xF0, and only a weak key", "no store of b[7]^0xF0 under weak(b)")
 	}
+}
+
+// ruleKDFLength: which derived-key length rfc8009.DeriveKey asks the KDF for. The selection may
+// look at the label only in these ways (the spellings found on the tree and in equivalent
+// rewrites): its last octet against 0xAA (Ke) or 's' (pre-test for "kerberos"); its length against
+// that of "kerberos"; its octets against those of "kerberos"; bytes.Equal / string equality with
+// "kerberos". Any other test of the label (a search for 0xAA anywhere, a prefix test …) selects the
+// length by something RFC 8009 does not say and is reported.
+func ruleKDFLength(w *World, c *Check, rule string) {
+	fn := w.Func("crypto/rfc8009.DeriveKey")
+	if fn == nil {
+		c.Missing(rule, "crypto/rfc8009.DeriveKey")
+		return
+	}
+	fa0 := NewFuncAn(w, fn)
+	label := regexp.QuoteMeta(substParams(fn, "label"))
+	last := label + `\[\(len\(` + label + `\) - 1\)\]`
+	known := []string{
+		`^(170|115) == ` + last + `$`, `^` + last + ` == (170|115)$`,
+		`^len\("kerberos"\) == len\(` + label + `\)$`, `^len\(` + label + `\) == (8|len\("kerberos"\))$`, `^8 == len\(` + label + `\)$`,
+		`^len\(` + label + `\) > \$i\d+$`, `^len\("kerberos"\) > \$i\d+$`, `^8 > \$i\d+$`,
+		`^"kerberos"\[\$i\d+\] == ` + label + `\[\$i\d+\]$`, `^` + label + `\[\$i\d+\] == "kerberos"\[\$i\d+\]$`,
+		`^bytes\.Equal\((` + label + `, "kerberos"|"kerberos", ` + label + `)\)$`,
+		`^"kerberos" == string\(` + label + `\)$`, `^string\(` + label + `\) == "kerberos"$`,
+	}
+	sawKe := false
+	for _, fa := range fa0.withNewHelpers() {
+		for _, cd := range fa.Conds {
+			txt := cd.L
+			if cd.Kind == "eq" {
+				txt = cd.L + " == " + cd.R
+			} else if cd.Kind == "gt" {
+				txt = cd.L + " > " + cd.R
+			}
+			if !compileRe(`(^|[^A-Za-z0-9_.])` + label + `([^A-Za-z0-9_]|$)`).MatchString(txt) {
+				continue
+			}
+			ok := false
+			for _, k := range known {
+				if compileRe(k).MatchString(txt) {
+					ok = true
+				}
+			}
+			if compileRe(`^170 == `+last+`$`).MatchString(txt) || compileRe(`^`+last+` == 170$`).MatchString(txt) {
+				sawKe = true
+			}
+			c.Decide(ok, rule, FuncKey(fa.Fn), "label-test "+trunc(txt, 70), w.Pos(InstrPos(cd.If)),
+				"a test of the label that takes part in choosing the derived-key length is the last-octet or the \"kerberos\" test",
+				"the label is tested by `"+trunc(cd.String(), 120)+"`, which is neither: the length would depend on something other than the label's last octet being 0xAA or the label being \"kerberos\"")
+		}
+	}
+	c.Decide(sawKe, rule, FuncKey(fn), "ke-by-last-octet", w.Pos(fn.Pos()), "Ke is recognised by the last octet of the label being 0xAA", "no comparison of "+substParams(fn, "label")+"[len-1] with 0xAA")
 }
